@@ -4,6 +4,7 @@ import (
 	"context"
 	"errors"
 	"fmt"
+	"io"
 
 	"github.com/go-netty/go-netty/internal/vrt"
 )
@@ -16,7 +17,7 @@ var zzErrUserClose = errors.New("zz: closed by user")
 // For bounded-wait channels (until == 0) this is required only if the closer slept less than the documented
 // grace period (10 x 100 ms).
 //
-//	closeKind: 0 plain error, 1 nil, 2 timeout net.Error, 3 wrapped net.Error, 4 the parent context is cancelled
+//	closeKind: 0 plain error, 1 nil, 2 timeout net.Error, 3 wrapped net.Error, 6 io.EOF, 7 wrapped io.ErrUnexpectedEOF, 4 the parent context is cancelled
 //	           before Close (Shutdown order), 5 concurrently with it
 func ZZ_C06_Close(q, until, nw, ww, wwOther, entries, closeKind int) {
 	tr := newZZTransport()
@@ -78,6 +79,10 @@ func ZZ_C06_Close(q, until, nw, ww, wwOther, entries, closeKind int) {
 		closeErr = &zzNetErr{timeout: true} // e.g. a read deadline forwarded by an exception handler
 	case 3:
 		closeErr = fmt.Errorf("wrapped: %w", &zzNetErr{timeout: false})
+	case 6:
+		closeErr = io.EOF // the peer half-closed: a codec raised EOF and the exception handler closes with it
+	case 7:
+		closeErr = fmt.Errorf("read frame: %w", io.ErrUnexpectedEOF)
 	}
 	vrt.Facet("closekind", closeKind)
 	switch closeKind {
